@@ -109,3 +109,70 @@ def find_impl(ck, ws, cname, self_pat, trait_pat, name, rule="ANCHOR"):
     if not ck.anchor(len(hits) == 1, rule, "%s for %s::%s" % (trait_pat, self_pat, name), "impl method exists (%d found)" % len(hits)):
         return None
     return Fn(hits[0])
+
+
+ZIP_CALL = re.compile(r"iter::Iterator::zip$|itertools::(multizip|zip)|iter::zip$")
+
+
+def zip_length_sweep(ck, c, scope, name_pat, rule="CMP", exceptions=None):
+    """In verifier-side functions: two sequences coming from different sources (statement vs proof, or two
+    independently supplied collections) may be zipped only after an enforced comparison of their lengths;
+    `zip` silently truncates to the shorter one, so unchecked items would simply not be verified."""
+    exceptions = exceptions or {}
+    n = 0
+    for p in sorted(c.paths()):
+        if not scope.search(p) or not name_pat.search(p):
+            continue
+        for b in c.get_all(p):
+            f = Fn(b)
+            zs = f.calls(ZIP_CALL)
+            if not zs:
+                continue
+            lens = []
+            for cx in rules.comparisons(f):
+                oa = f.origins(cx["a"], deep=True)
+                ob = f.origins(cx["b"], deep=True)
+                if any(a[0] == "call" and a[1].endswith("::len") for a in oa) and any(a[0] == "call" and a[1].endswith("::len") for a in ob):
+                    rel, _ = rules.cmp_rejects(f, cx)
+                    if rel is not None:
+                        lens.append((_srcset(oa), _srcset(ob), cx["bb"]))
+            for k, (bi, t) in enumerate(zs):
+                srcs = [_srcset(f.origins(a, deep=True)) for a in t["args"][:2]]
+                if len(srcs) < 2 or not srcs[0] or not srcs[1]:
+                    continue
+                a, b2 = srcs
+                if a == b2:
+                    continue
+                n += 1
+                only_a, only_b = a - b2, b2 - a
+                ok = any((x & (only_a or a) and y & (only_b or b2)) or (x & (only_b or b2) and y & (only_a or a)) for (x, y, cb) in lens)
+                key = "zip:%s~%s" % ("/".join(sorted(only_a or a))[:28], "/".join(sorted(only_b or b2))[:28])
+                exc = exceptions.get((p, key))
+                if exc is not None and not ok:
+                    ck.ob(rule, p, key, True, "documented exception: " + exc, f.loc(bi), nontrivial=False)
+                    continue
+                ck.ob(rule, p, key, ok,
+                      "%s and %s are zipped after an enforced comparison of their lengths" % (sorted(only_a or a), sorted(only_b or b2)) if ok else
+                      "%s and %s are zipped without an enforced length comparison: zip truncates to the shorter sequence, the surplus items are silently not verified"
+                      % (sorted(only_a or a), sorted(only_b or b2)), f.loc(bi))
+    return n
+
+
+def _srcset(atoms):
+    s = set(a[1] for a in atoms if a[0] == "field" and not a[1].isdigit())
+    s |= set("arg%d" % a[1] for a in atoms if a[0] == "arg")
+    return s
+
+
+SKIP_FN = re.compile(r"serde|fmt::|::clone$|::eq$|Serial|Deserial|::hash$|::default$|::fmt$|cmp::")
+
+
+def enf_module_sweep(ck, c, scope, floor, what, family=VERIFY_FAMILY):
+    """every call of the verification family in every function of a module scope is enforced or returned"""
+    tot = 0
+    for p in sorted(c.paths()):
+        if scope.search(p) and not SKIP_FN.search(p):
+            for b in c.get_all(p):
+                tot += enf_sweep(ck, Fn(b), family=family)
+    ck.floor("ENF", "verification-family call sites in " + what, tot, floor)
+    return tot
